@@ -7,8 +7,6 @@ early exits.  Core-only.
 namespace Gv.Spec
 open Gv
 
-abbrev Rows := List (String × Seq)
-
 /-- all byte values in increasing order -/
 def allBytes : List Byte := (List.range 256).map UInt8.ofNat
 
@@ -23,25 +21,25 @@ def tableOf (g : Byte → Nat) : List (Byte × Nat) :=
 def countTable (f : Byte → Byte) (cs : List Byte) : List (Byte × Nat) := tableOf (occ f cs)
 
 /-- ASCII upper-casing (what `unicode.ToUpper` does on bytes < 128) -/
-def upper (c : Byte) : Byte := if 97 ≤ c ∧ c ≤ 122 then c - 32 else c
+def upperCase (c : Byte) : Byte := if 97 ≤ c ∧ c ≤ 122 then c - 32 else c
 
 /-- column `j` (byte 0 where a row is too short: never the case in an alignment) -/
-def column (rows : Rows) (j : Nat) : List Byte := rows.map fun r => r.2.getD j 0
+def column (rows : List (String × Seq)) (j : Nat) : List Byte := rows.map fun r => r.2.getD j 0
 
 /-- `CharStats`: every character of every row, upper-cased -/
-def charStats (rows : Rows) : List (Byte × Nat) := countTable upper (rows.flatMap Prod.snd)
+def charStats (rows : List (String × Seq)) : List (Byte × Nat) := countTable upperCase (rows.flatMap Prod.snd)
 
 /-- `UniqueCharacters`: the byte values that are the upper-case form of some residue, increasing -/
-def uniqueCharacters (rows : Rows) : List Byte :=
-  allBytes.filter fun k => (rows.flatMap Prod.snd).any fun c => upper c == k
+def uniqueCharacters (rows : List (String × Seq)) : List Byte :=
+  allBytes.filter fun k => (rows.flatMap Prod.snd).any fun c => upperCase c == k
 
 /-- `CharStatsSeq(idx)`: defined exactly for `0 ≤ idx < number of rows` -/
-def charStatsSeq (rows : Rows) (idx : Int) : Option (List (Byte × Nat)) :=
-  if 0 ≤ idx ∧ idx < rows.length then some (countTable upper (rows.getD idx.toNat ("", [])).2) else none
+def charStatsSeq (rows : List (String × Seq)) (idx : Int) : Option (List (Byte × Nat)) :=
+  if 0 ≤ idx ∧ idx < rows.length then some (countTable upperCase (rows.getD idx.toNat ("", [])).2) else none
 
 /-- `CharStatsSite(site)`: defined exactly for `0 ≤ site < L` -/
-def charStatsSite (rows : Rows) (L : Int) (site : Int) : Option (List (Byte × Nat)) :=
-  if 0 ≤ site ∧ site < L then some (countTable upper (column rows site.toNat)) else none
+def charStatsSite (rows : List (String × Seq)) (L : Int) (site : Int) : Option (List (Byte × Nat)) :=
+  if 0 ≤ site ∧ site < L then some (countTable upperCase (column rows site.toNat)) else none
 
 /-- characters that the site measures look at: not `-`, `.`, `*` -/
 def plain (c : Byte) : Bool := c != 45 && c != 46 && c != 42
@@ -50,7 +48,7 @@ def plain (c : Byte) : Bool := c != 45 && c != 46 && c != 42
 def isVariable (col : List Byte) : Bool :=
   (col.filter plain).any fun a => (col.filter plain).any fun b => a != b
 
-def nbVariableSites (rows : Rows) (L : Nat) : Nat :=
+def nbVariableSites (rows : List (String × Seq)) (L : Nat) : Nat :=
   ((List.range L).filter fun j => isVariable (column rows j)).length
 
 /-- number of byte values occurring (as they are) among the characters -/
@@ -58,7 +56,7 @@ def nbDistinct (cs : List Byte) : Nat := (allBytes.filter fun k => cs.contains k
 
 /-- `AvgAllelesPerSite` = first component / second component: distinct plain characters summed over the
 sites, and the number of sites holding a plain character -/
-def allelesCounts (rows : Rows) (L : Nat) : Nat × Nat :=
+def allelesCounts (rows : List (String × Seq)) (L : Nat) : Nat × Nat :=
   (((List.range L).map fun j => nbDistinct ((column rows j).filter plain)).sum,
    ((List.range L).filter fun j => (column rows j).any plain).length)
 
@@ -69,28 +67,28 @@ def wildcardOf (alphabet : Nat) : Byte := if alphabet = 0 then 88 else if alphab
 among the characters other than `-`, `.` and the wildcard -/
 def isInformative (all : Byte) (col : List Byte) : Bool :=
   let kept := col.filter fun s => s != 45 && s != 46 && s != all
-  decide ((allBytes.filter fun k => occ upper kept k ≥ 2).length ≥ 2)
+  decide ((allBytes.filter fun k => occ upperCase kept k ≥ 2).length ≥ 2)
 
-def informativeSites (rows : Rows) (L : Nat) (alphabet : Nat) : List Nat :=
+def informativeSites (rows : List (String × Seq)) (L : Nat) (alphabet : Nat) : List Nat :=
   (List.range L).filter fun j => isInformative (wildcardOf alphabet) (column rows j)
 
 /-- gaps of row `i` that no other row shares: sites where row `i` has a gap and the column has one gap -/
-def gapsUniqueOf (rows : Rows) (L : Nat) (i : Nat) : Nat :=
+def gapsUniqueOf (rows : List (String × Seq)) (L : Nat) (i : Nat) : Nat :=
   ((List.range L).filter fun j => (column rows j).getD i 0 == 45 && (column rows j).count 45 == 1).length
 
-def numGapsUnique (rows : Rows) (L : Nat) : List Nat := (List.range rows.length).map (gapsUniqueOf rows L)
+def numGapsUnique (rows : List (String × Seq)) (L : Nat) : List Nat := (List.range rows.length).map (gapsUniqueOf rows L)
 
 /-- characters of row `i` (neither gap nor wildcard) that occur once in their column -/
-def mutationsUniqueOf (all : Byte) (rows : Rows) (L : Nat) (i : Nat) : Nat :=
+def mutationsUniqueOf (all : Byte) (rows : List (String × Seq)) (L : Nat) (i : Nat) : Nat :=
   ((List.range L).filter fun j =>
     let c := (column rows j).getD i 0
     c != all && c != 45 && (column rows j).count c == 1).length
 
-def numMutationsUnique (rows : Rows) (L : Nat) (alphabet : Nat) : List Nat :=
+def numMutationsUnique (rows : List (String × Seq)) (L : Nat) (alphabet : Nat) : List Nat :=
   (List.range rows.length).map (mutationsUniqueOf (wildcardOf alphabet) rows L)
 
 /-- some residue of the first `L` columns is a byte ≥ 130 (not ASCII) -/
-def hasHighByte (rows : Rows) (L : Nat) : Bool := (List.range L).any fun j => (column rows j).any fun r => r ≥ 130
+def hasHighByte (rows : List (String × Seq)) (L : Nat) : Bool := (List.range L).any fun j => (column rows j).any fun r => r ≥ 130
 
 /-- first occurrences, in order -/
 def firstOccurrences {α : Type} [BEq α] : List α → List α
@@ -103,7 +101,7 @@ def diffsOf (first row : Seq) : List (Byte × Byte) := (first.zip row).filter fu
 
 /-- `CountDifferences`: every kind of difference in order of first appearance (row by row, left to right)
 and, per row other than the first, how often each kind occurs -/
-def allDiffs (rows : Rows) : List (Byte × Byte) :=
+def allDiffs (rows : List (String × Seq)) : List (Byte × Byte) :=
   match rows with
   | [] => []
   | f :: rest => firstOccurrences (rest.flatMap fun r => diffsOf f.2 r.2)
@@ -115,7 +113,7 @@ def diffCount (first row : Seq) (p : Byte × Byte) : Nat := (diffsOf first row).
 /-- what a nucleotide character stands for: an IUPAC letter (either case) ↦ its bases (in the order A, C, G, T);
 `-`, `*`, `X`, `.` ↦ no base; any other character is not a nucleotide character -/
 def ntBases (c : Byte) : Option (List Byte) :=
-  match upper c with
+  match upperCase c with
   | 65 => some [65] | 67 => some [67] | 71 => some [71] | 84 => some [84]
   | 82 => some [65, 71] | 89 => some [67, 84] | 83 => some [67, 71] | 87 => some [65, 84]
   | 75 => some [71, 84] | 77 => some [65, 67]
